@@ -43,3 +43,26 @@ Proof.
   - destruct (g_no_lost_update val arg wfun repo_skel wp repo_wlock W c0 ls c σ pl tr Hi L H) as (_ & _ & Hv & _). apply Hv.
   - destruct (g_no_lost_update val arg wfun repo_skel wp repo_wlock W c0 ls c σ pl tr Hi L H) as (_ & _ & _ & Hp). apply Hp.
 Qed.
+
+From HV Require Import C07.Sched.
+
+(** the run-time tie for the repository as it is in the working tree: what the stream "sched" replays (any log,
+    in the instance [cfg0] / [wf1] the evaluator uses) is a crash-free, race-free, linearizable execution of the
+    regenerated skeleton with exactly the logged invocations and responses *)
+Lemma repo_explored_schedule_safe :
+  forall (items : list item) (s' : rpst unit unit) (err : option rerr),
+    replay wf1 repo_skel tt items (rpst0 cfg0) = (s', err) ->
+    exec wf1 repo_skel false cfg0 (rev (rs_lab s')) (rs_cfg s') /\
+    (err = None -> flat_map label_io (rev (rs_lab s')) = flat_map item_io items) /\
+    ~ bad (rs_cfg s') /\ ~ var_race (rs_cfg s') /\ ~ obj_race (rs_cfg s') /\
+    exists σ pl tr ph,
+      lin wf1 repo_skel false cfg0 (rev (rs_lab s')) (rs_cfg s') σ pl tr /\
+      seq_hist wf1 repo_skel (abs_of cfg0) (lins tr) σ /\
+      wb (fun _ => PIdle) tr ph /\
+      io_marks tr = io_labels (rev (rs_lab s')).
+Proof.
+  intros items s' err E.
+  split; [eapply replay_sound; eassumption|].
+  split; [intro N; subst err; eapply replay_history; eassumption|].
+  eapply replay_run_safe; [exact repo_skel_wf|exact cfg0_initial|eassumption].
+Qed.
